@@ -33,10 +33,27 @@ def shrink_streams(tier):
     return out
 
 
+def regression_streams(tier):
+    """witnesses of repaired findings (F5: an explicit shrink whose rebuild must expand the nearly empty temporary map: keys whose
+    low 16 hash bits are zero collide in every small table; the temporary map must not apply a load-factor threshold), kept so
+    that a regression is reported with the original input"""
+    out = []
+    for S, M, kind in ((4, 4, 0), (4, 2, 1), (2, 4, 2)):
+        cfg = k2.Cfg(S, M, kind, 5)
+        for nkeys in (2 * S + 1, 2 * S + 4):
+            lines = [cfg.line(), "m new 0 4", "m setmlf 0 0"]
+            lines += ["m insert 0 %d %d" % (k, k) for k in range(1, nkeys + 1)]
+            for tgt in (2, 0):
+                lines += ["m stats 0", "m rehash 0 %d" % tgt, "m stats 0", "m inv 0"]
+            lines += ["m reserve 0 1", "m stats 0", "m inv 0"] + ["m find 0 %d" % k for k in range(1, nkeys + 1)]
+            out.append((cfg, lines))
+    return out
+
+
 def run(tier):
     # the concurrent face of "explicit resize requests are honoured": requests queued behind doublings, behind each other and
     # behind locked sections that change the hashpower; only dropped / unexplained answers are judged here (k3_only_own)
-    return k2check.run("C10", tier, profile="limits", extra_streams=shrink_streams(tier), k3_only_own=True,
+    return k2check.run("C10", tier, profile="limits", extra_streams=shrink_streams(tier) + regression_streams(tier), k3_only_own=True,
                        k3_programs=["find-vs-rehash", "two-resizers", "rehash-up-down", "reserve-vs-ops", "rehash-vs-doubling",
                                     "section-resize-vs-rehash"])
 
